@@ -312,6 +312,11 @@ def monitor_index(ob_index, disk, settled):
     for d, its in ob_index['dirs']:
         nfiles += len(its)
         nfolders += len({tuple(a[:-1]) for a, _, _, _ in its})
+    for d, its in ob_index['dirs']:
+        for a, qp, alias, mt in its:
+            if innermost(dirs, a) != d:
+                out.append(('index-not-innermost', 'a file is held by a shared directory that is not the innermost one containing it',
+                            {'file': a, 'held_by': d, 'innermost': innermost(dirs, a)}))
     if (nfolders, nfiles) != tuple(ob_index['stats']):
         key = K_F05 if ob_index['stale'] else 'stats-mismatch'
         out.append((key, f'get_stats() = {tuple(ob_index["stats"])}, the index holds {nfolders} folders / {nfiles} files', {}))
